@@ -97,19 +97,21 @@ let parse_arg tok =
       | "chk" ->
           if kind = DBool then raise Setup;
           (match kind, p with
-           | DLevel, ("values" | "minlen" | "maxlen" | "pattern") :: _ -> raise (Unsupported "text check on level counter")
+           | DLevel, ("values" | "ivalues" | "minlen" | "maxlen" | "pattern") :: _ -> raise (Unsupported "text check on level counter")
            | _ -> ());
           let c = match p with
             | ["lower"; x] -> CLower (z_of_int (int_of_string x))
             | ["upper"; x] -> CUpper (z_of_int (int_of_string x))
             | ["range"; a; b] -> CRange (z_of_int (int_of_string a), z_of_int (int_of_string b))
             | "values" :: l -> if l = [] then raise Setup else CValues (List.map str_of_string l)
+            | "ivalues" :: l -> if l = [] then raise Setup else CIValues (List.map str_of_string l)
             | ["minlen"; n] -> CMinLen (nat_of_int (int_of_string n))
             | ["maxlen"; n] -> CMaxLen (nat_of_int (int_of_string n))
             | _ -> raise (Unsupported "check") in
           (* ICheck::combinationAllowed: two checks of the same kind are refused *)
           let same a b = match a, b with
             | CLower _, CLower _ | CUpper _, CUpper _ | CRange _, CRange _ | CValues _, CValues _
+            | CValues _, CIValues _ | CIValues _, CValues _ | CIValues _, CIValues _
             | CMinLen _, CMinLen _ | CMaxLen _, CMaxLen _ -> true | _ -> false in
           if List.exists (same c) d0.a_checks then raise (Unsupported "two checks of one kind");
           d := { d0 with a_checks = d0.a_checks @ [c] }
